@@ -9,6 +9,54 @@ from . import astq as Q
 from .pysrc import src
 
 
+_G = None
+
+
+def _guards():
+    global _G
+    if _G is None:
+        import json
+        import os
+        f = os.path.join(os.path.dirname(os.path.dirname(os.path.abspath(__file__))), "baselines", "univ_guards.json")
+        try:
+            _G = set(json.load(open(f))["guards"])
+        except (OSError, ValueError, KeyError):
+            _G = set()
+    return _G
+
+
+def collect_guards(repo, tables):
+    """guards of returns that bypass a universal loop on the current tree (used once, to write the baseline after reading them)"""
+    out = set()
+
+    class Sink:
+        def violation(self, rule, construct, detail, where=""):
+            pass
+
+        def check(self, *a, **k):
+            pass
+
+        def undecided(self, *a, **k):
+            pass
+    import re as _re
+    for pid, table in tables.items():
+        for cls, func, path, pat, why in table:
+            fn = repo.method(cls, func, path)[1] if cls else repo.func(path, func)
+            qual = "%s.%s" % (cls, func) if cls else "%s::%s" % (path.split("/")[-1], func)
+            loops = [l for l in ast.walk(fn) if isinstance(l, ast.For) and _re.search(pat, src(l.iter))]
+            g = repo.cfg(fn)
+            for l in loops:
+                hd = [x for x in g.nodes() if g.data(x)["kind"] == "loop" and g.data(x)["ast"] is l]
+                for rn in g.nodes():
+                    ra = g.data(rn).get("ast")
+                    if isinstance(ra, ast.Return) and g.data(rn)["kind"] == "stmt" and not any(y is ra for y in ast.walk(l)) \
+                            and hd and g.path(g.entry, rn, avoid=hd) is not None:
+                        chain = Q.condition_chain(fn, ra) or []
+                        tests = [" ".join(src(c.test).split()) for c in chain if hasattr(c, "test")]
+                        out.add("%s|%s" % (qual, " && ".join(tests)))
+    return sorted(out)
+
+
 def check(ctx, repo, rule, table):
     n = 0
     for cls, func, path, pat, why in table:
@@ -24,8 +72,38 @@ def check(ctx, repo, rule, table):
         if not loops:
             ctx.undecided(rule, "%s/for:%s" % (qual, pat), "apply-to-all loop no longer found (restructured?)", "%s:%d" % (p, fn.lineno))
             continue
+        # the loop is reached on every normal path through the function: a `return` that can be taken without passing the loop is
+        # accepted only if its guard tests the iterated collection itself (nothing to treat) or is one of the guards confirmed by
+        # reading on the pinned tree (baselines/univ_guards.json); anything else is a new way of skipping every element
+        g = repo.cfg(fn)
+        heads = [x for x in g.nodes() if g.data(x)["kind"] == "loop" and g.data(x)["ast"] in loops]
         for k, l in enumerate(loops):
             n += 1
+            hd = [x for x in heads if g.data(x)["ast"] is l]
+            outer = [x for x in heads if g.data(x)["ast"] is not l and any(y is l for y in ast.walk(g.data(x)["ast"]))]
+            if hd and not outer:
+                iter_names = {y.id for y in ast.walk(l.iter) if isinstance(y, ast.Name)} | \
+                    {src(y) for y in ast.walk(l.iter) if isinstance(y, ast.Attribute)}
+                for rn in g.nodes():
+                    ra = g.data(rn).get("ast")
+                    if not isinstance(ra, ast.Return) or g.data(rn)["kind"] != "stmt":
+                        continue
+                    if any(y is ra for y in ast.walk(l)):
+                        continue
+                    if g.path(g.entry, rn, avoid=hd) is None:
+                        continue            # only reachable after the loop
+                    chain = Q.condition_chain(fn, ra) or []
+                    tests = [" ".join(src(c.test).split()) for c in chain if hasattr(c, "test")]
+                    if not tests:
+                        continue            # the function's final return; the loop sits in a branch
+                    mentions = any(nm in t for t in tests for nm in iter_names if nm not in ("self",))
+                    key = "%s|%s" % (qual, " && ".join(tests))
+                    if mentions or key in _guards():
+                        continue
+                    ctx.violation(rule, "%s/for:%s#%d/reached" % (qual, pat, k),
+                                  "`%s` at line %d (guard: %s) leaves the function before the loop `for %s in %s` is reached: on that path no "
+                                  "element is treated (%s)" % (src(ra), ra.lineno, " and ".join(tests) or "none", src(l.target), src(l.iter)[:60], why),
+                                  "%s:%d" % (p, ra.lineno))
             ex = Q.early_exits(l)
             ctx.check(not ex, rule, "%s/for:%s#%d" % (qual, pat, k), "visits every element (%s)" % why,
                       "`%s` at line %d leaves the loop `for %s in %s` before every element is treated (%s)" % (
